@@ -74,6 +74,7 @@ type WatchCall struct {
 }
 
 type Server struct {
+	incarnations map[[2]int]int // per key: how many times it was created
 	// Kind of the objects this server serves (kobj.KPod by default)
 	Kind    int
 	mu      sync.Mutex
@@ -166,8 +167,16 @@ func (s *Server) Set(ns, nm int, labels kobj.Map, node int) *kobj.Obj {
 	s.nextID++
 	k := [2]int{ns, nm}
 	t := watch.Added
-	if _, ok := s.objects[k]; ok {
+	if old, ok := s.objects[k]; ok {
 		t = watch.Modified
+		o.Inc = old.Inc // the same incarnation: the UID stays
+	} else {
+		// created (again): a new UID
+		if s.incarnations == nil {
+			s.incarnations = map[[2]int]int{}
+		}
+		s.incarnations[k]++
+		o.Inc = s.incarnations[k]
 	}
 	s.objects[k] = o
 	s.append(LogEntry{s.version, t, o})
@@ -224,8 +233,15 @@ func (s *Server) Put(proto kobj.Obj) *kobj.Obj {
 	s.nextID++
 	k := [2]int{o.NS, o.NM}
 	t := watch.Added
-	if _, ok := s.objects[k]; ok {
+	if old, ok := s.objects[k]; ok {
 		t = watch.Modified
+		o.Inc = old.Inc
+	} else {
+		if s.incarnations == nil {
+			s.incarnations = map[[2]int]int{}
+		}
+		s.incarnations[k]++
+		o.Inc = s.incarnations[k]
 	}
 	s.objects[k] = &o
 	s.append(LogEntry{s.version, t, &o})
